@@ -13,7 +13,7 @@ from ..worker import Worker, arg, unjson
 LEVEL = "exploration"
 RULE = ("cases = inheritance graphs (1-5 programs, 0-2 parents each, inherit modifiers none/private/static, functions f0..f4 with modifiers "
         "none/static/private/protected/varargs, every function returns 'program:function:<its own program's global>') x histories of 5-40 calls "
-        "over origins {call_other from another object, driver apply, call_out via backend tick, local wrapper, function pointer, function_exists}, "
+        "over origins {call_other from another object (also in the array form, behind other elements), driver apply, call_out via backend tick, local wrapper, function pointer, function_exists}, "
         "including refused ones. non-trivial = a refused call followed later by an allowed-origin call to the same (object, name), or one name "
         "called through two objects of an inheritance chain; distinct = (graph, history) hash")
 ASSUMPTIONS = ["resolution/visibility expectations are only asserted where the Python resolver finds exactly one candidate and no 'private' "
@@ -24,7 +24,7 @@ NONTRIVIAL_FLOOR = {"quick": 150, "thorough": 2000}
 NF = 5
 FMODS = ["", "", "", "static ", "private ", "protected ", "varargs "]
 IMODS = ["", "", "", "private ", "static "]
-ORIGINS = ["call_other", "call_other_lit", "driver", "call_out", "call_out_lit", "local", "fp", "fexists"]
+ORIGINS = ["call_other", "call_other_lit", "call_other_arr", "driver", "call_out", "call_out_lit", "local", "fp", "fexists"]
 
 COMMON = r'''
 string who = WHO;
@@ -39,6 +39,8 @@ void create() { seteuid(getuid()); }
 mixed co(string ob, string fn) { return call_other(ob, fn); }
 // the same with literal names: literals are shared strings, as in real mudlib code (the apply cache is keyed by the string pointer)
 mixed co_lit(string ob, int k) { switch (k) { case 0: return call_other(ob, "f0"); case 1: return call_other(ob, "f1"); case 2: return call_other(ob, "f2"); case 3: return call_other(ob, "f3"); } return call_other(ob, "f4"); }
+// the array form: one efun call goes through every element; the result of the last element is what the case looks at
+mixed co_arr(string obs, string fn) { mixed *r = call_other(map(explode(obs, ","), (: load_object :)), fn); return r[<1]; }
 mixed fe(string ob, string fn) { return function_exists(fn, load_object(ob)); }
 '''
 
@@ -65,6 +67,10 @@ def cases(draw):
     g = draw(graphs())
     nc = draw(st.integers(5, 40))
     calls = [dict(ob=draw(st.integers(0, len(g) - 1)), fn=draw(st.integers(0, NF - 1)), origin=draw(st.sampled_from(ORIGINS))) for _ in range(nc)]
+    for c in calls:
+        if c["origin"] == "call_other_arr":
+            # the elements in front of the one looked at: other programs of the graph, or the log daemon (which has no f<k> at all)
+            c["pre"] = draw(st.lists(st.integers(-1, len(g) - 1), min_size=1, max_size=3))
     # the same (object, name) is often called from a second kind of caller as well: what a driver apply runs tells which definition
     # is the most derived one, and a call_other has to agree with that definition's visibility
     for c in list(calls):
@@ -150,6 +156,9 @@ def call_steps(c):
     o = c["origin"]
     if o == "call_other":
         return [["call", "t/c07caller", "co", arg("/" + ob), arg(fn)]]
+    if o == "call_other_arr":
+        names = ["/t/c07log" if j < 0 else "/t/p%d" % j for j in c["pre"]] + ["/" + ob]
+        return [["call", "t/c07caller", "co_arr", arg(",".join(names)), arg(fn)]]
     if o == "call_other_lit":
         return [["call", "t/c07caller", "co_lit", arg("/" + ob), arg(c["fn"])]]
     if o == "call_out_lit":
@@ -211,7 +220,7 @@ def evaluate_case(ctx, w, case):
     # oracle 1: history independence
     fresh = {}
     for c, o in zip(calls, outs):
-        key = (c["ob"], c["fn"], c["origin"])
+        key = (c["ob"], c["fn"], c["origin"], tuple(c.get("pre", ())))
         if key not in fresh:
             r2, b2 = run_history(w, g, [c])
             if r2.timed_out or r2.crash():
@@ -229,7 +238,7 @@ def evaluate_case(ctx, w, case):
         tag = "p%d:f%d:p%d" % (r[1], c["fn"], r[1])
         hidden = bool(r[2] & {"static", "private", "protected"})
         orig = c["origin"]
-        if orig in ("call_other", "call_other_lit"):
+        if orig in ("call_other", "call_other_lit", "call_other_arr"):
             if hidden:
                 feats.add("refused")
                 if o[0] == "val" and o[1] == repr(tag):
@@ -246,7 +255,7 @@ def evaluate_case(ctx, w, case):
     # read off a driver / local / function-pointer call of the same (object, name); another object's call_other must then agree with the
     # visibility of exactly that definition (its own modifiers plus the modifier of the inherit statement it came through).
     for c, o in zip(calls, outs):
-        if c["origin"] not in ("call_other", "call_other_lit"):
+        if c["origin"] not in ("call_other", "call_other_lit", "call_other_arr"):
             continue
         cands = path_candidates(g, c["ob"], c["fn"])
         if not cands:
@@ -273,7 +282,7 @@ def evaluate_case(ctx, w, case):
     nt = False
     for i, c in enumerate(calls):
         r = resolve(g, c["ob"], c["fn"])
-        if c["origin"] in ("call_other", "call_other_lit") and r[0] == "ok" and r[2] & {"static", "private", "protected"}:
+        if c["origin"] in ("call_other", "call_other_lit", "call_other_arr") and r[0] == "ok" and r[2] & {"static", "private", "protected"}:
             if any(d["ob"] == c["ob"] and d["fn"] == c["fn"] and d["origin"] in ("driver", "call_out", "call_out_lit", "local", "fp") for d in calls[i + 1:]):
                 nt = True
         if any(d["fn"] == c["fn"] and d["ob"] != c["ob"] for d in calls[i + 1:]):
